@@ -83,6 +83,8 @@ def expected_declared(p, ns):
             uva, uvk, ha, hk = c.flags(has_va, has_vk)
             if not (uva or uvk):
                 continue
+            if getattr(c, 'unresolvable', False):
+                return [plain], plain       # the callee cannot be resolved statically
             cs = sigtools.signature(callee_object(p, ns, c.callee))
             try:
                 cs.bind_partial(*([0] * c.n), **{name_of(k): 0 for k in c.names})
